@@ -327,6 +327,224 @@ theorem groups_refused (isQuery : Nat → Bool) (c : Contact) (add : Bool) (gs :
     applyGroups isQuery c add gs = ⟨c, [.error], false⟩ := by
   simp [applyGroups, h]
 
+/-! #### adding to and removing from groups is idempotent -/
+
+theorem addLoop_mono (isQuery : Nat → Bool) (l gs : List Nat) (g : Nat) (h : g ∈ gs) :
+    g ∈ (groupsAddLoop isQuery gs l).1 := by
+  induction l generalizing gs with
+  | nil => simpa [groupsAddLoop] using h
+  | cons x l ih =>
+    simp only [groupsAddLoop]
+    split
+    · exact ih gs h
+    · split
+      · exact ih gs h
+      · exact ih _ (by simp [h])
+
+theorem addLoop_has (isQuery : Nat → Bool) (l gs : List Nat) :
+    ∀ g ∈ l, isQuery g = false → g ∈ (groupsAddLoop isQuery gs l).1 := by
+  induction l generalizing gs with
+  | nil => intro g hg; cases hg
+  | cons x l ih =>
+    intro g hg hq
+    simp only [List.mem_cons] at hg
+    simp only [groupsAddLoop]
+    split
+    · rename_i hx
+      rcases hg with rfl | hg
+      · rw [hq] at hx; cases hx
+      · exact ih gs g hg hq
+    · split
+      · rename_i hc
+        rcases hg with rfl | hg
+        · exact addLoop_mono isQuery l gs g (by simpa using hc)
+        · exact ih gs g hg hq
+      · rcases hg with rfl | hg
+        · exact addLoop_mono isQuery l _ g (by simp)
+        · exact ih _ g hg hq
+
+theorem addLoop_fixed (isQuery : Nat → Bool) (l gs : List Nat) (h : ∀ g ∈ l, isQuery g = true ∨ g ∈ gs) :
+    (groupsAddLoop isQuery gs l).1 = gs ∧ (groupsAddLoop isQuery gs l).2.1 = [] ∧
+    ∀ e ∈ (groupsAddLoop isQuery gs l).2.2, e = .error := by
+  induction l with
+  | nil => simp [groupsAddLoop]
+  | cons x l ih =>
+    have ih' := ih (fun g hg => h g (by simp [hg]))
+    simp only [groupsAddLoop]
+    split
+    · refine ⟨ih'.1, ih'.2.1, ?_⟩
+      intro e he
+      simp only [List.mem_cons] at he
+      rcases he with rfl | he
+      · rfl
+      · exact ih'.2.2 e he
+    · rename_i hx
+      have := h x (by simp)
+      have hm : x ∈ gs := by
+        rcases this with h1 | h1
+        · exact absurd h1 hx
+        · exact h1
+      have hc : gs.contains x = true := by simpa using hm
+      simp only [hc, if_true]
+      exact ih'
+
+theorem remLoop_anti (isQuery : Nat → Bool) (l gs : List Nat) (g : Nat) (h : g ∉ gs) :
+    g ∉ (groupsRemoveLoop isQuery gs l).1 := by
+  induction l generalizing gs with
+  | nil => simpa [groupsRemoveLoop] using h
+  | cons x l ih =>
+    simp only [groupsRemoveLoop]
+    split
+    · exact ih gs h
+    · split
+      · exact ih gs h
+      · exact ih _ (by simp [h])
+
+theorem remLoop_gone (isQuery : Nat → Bool) (l gs : List Nat) :
+    ∀ g ∈ l, isQuery g = false → g ∉ (groupsRemoveLoop isQuery gs l).1 := by
+  induction l generalizing gs with
+  | nil => intro g hg; cases hg
+  | cons x l ih =>
+    intro g hg hq
+    simp only [List.mem_cons] at hg
+    simp only [groupsRemoveLoop]
+    split
+    · rename_i hx
+      rcases hg with rfl | hg
+      · rw [hq] at hx; cases hx
+      · exact ih gs g hg hq
+    · split
+      · rename_i hc
+        rcases hg with rfl | hg
+        · exact remLoop_anti isQuery l gs g (by simpa using hc)
+        · exact ih gs g hg hq
+      · rcases hg with rfl | hg
+        · exact remLoop_anti isQuery l _ g (by simp)
+        · exact ih _ g hg hq
+
+theorem remLoop_fixed (isQuery : Nat → Bool) (l gs : List Nat) (h : ∀ g ∈ l, isQuery g = true ∨ g ∉ gs) :
+    (groupsRemoveLoop isQuery gs l).1 = gs ∧ (groupsRemoveLoop isQuery gs l).2.1 = [] ∧
+    ∀ e ∈ (groupsRemoveLoop isQuery gs l).2.2, e = .error := by
+  induction l with
+  | nil => simp [groupsRemoveLoop]
+  | cons x l ih =>
+    have ih' := ih (fun g hg => h g (by simp [hg]))
+    simp only [groupsRemoveLoop]
+    split
+    · refine ⟨ih'.1, ih'.2.1, ?_⟩
+      intro e he
+      simp only [List.mem_cons] at he
+      rcases he with rfl | he
+      · rfl
+      · exact ih'.2.2 e he
+    · rename_i hx
+      have := h x (by simp)
+      have hm : x ∉ gs := by
+        rcases this with h1 | h1
+        · exact absurd h1 hx
+        · exact h1
+      have hc : (!gs.contains x) = true := by simpa using hm
+      simp only [hc, if_true]
+      exact ih'
+
+/-- if the loop reports nothing added, the groups are as they were -/
+theorem addLoop_fixed_of_none (isQuery : Nat → Bool) (l gs : List Nat)
+    (h : (groupsAddLoop isQuery gs l).2.1 = []) : (groupsAddLoop isQuery gs l).1 = gs := by
+  induction l generalizing gs with
+  | nil => simp [groupsAddLoop]
+  | cons x l ih =>
+    simp only [groupsAddLoop] at h ⊢
+    split
+    · rename_i hx; simp only [hx, if_true] at h; exact ih gs h
+    · rename_i hx
+      simp only [hx] at h
+      split
+      · rename_i hc; simp only [hc, if_true] at h; exact ih gs h
+      · rename_i hc
+        have hm : x ∉ gs := by simpa using hc
+        simp [hm] at h
+
+theorem remLoop_fixed_of_none (isQuery : Nat → Bool) (l gs : List Nat)
+    (h : (groupsRemoveLoop isQuery gs l).2.1 = []) : (groupsRemoveLoop isQuery gs l).1 = gs := by
+  induction l generalizing gs with
+  | nil => simp [groupsRemoveLoop]
+  | cons x l ih =>
+    simp only [groupsRemoveLoop] at h ⊢
+    split
+    · rename_i hx; simp only [hx, if_true] at h; exact ih gs h
+    · rename_i hx
+      simp only [hx] at h
+      split
+      · rename_i hc; simp only [hc, if_true] at h; exact ih gs h
+      · rename_i hc
+        have hm : x ∈ gs := by simpa using hc
+        simp [hm] at h
+
+/-- **Idempotence of the groups modifier**: applied a second time it leaves the contact as it is,
+reports `modified = false` and emits nothing but the errors for query-based groups (which it
+refuses every time). -/
+theorem groups_idem (isQuery : Nat → Bool) (c : Contact) (add : Bool) (gs : List Nat) :
+    (applyGroups isQuery (applyGroups isQuery c add gs).contact add gs).contact = (applyGroups isQuery c add gs).contact ∧
+    (applyGroups isQuery (applyGroups isQuery c add gs).contact add gs).modified = false ∧
+    ∀ e ∈ (applyGroups isQuery (applyGroups isQuery c add gs).contact add gs).events, e = .error := by
+  by_cases hs : c.status ≠ .active
+  · rw [groups_refused isQuery c add gs hs]
+    simp only
+    rw [groups_refused isQuery c add gs hs]
+    simp
+  · have hact : c.status = .active := by simpa using hs
+    cases add with
+    | true =>
+      -- what the first application leaves
+      have key : ∀ c' : Contact, c'.status = .active →
+          (∀ g ∈ gs, isQuery g = true ∨ g ∈ c'.groups) →
+          (applyGroups isQuery c' true gs).contact = c' ∧ (applyGroups isQuery c' true gs).modified = false ∧
+          ∀ e ∈ (applyGroups isQuery c' true gs).events, e = .error := by
+        intro c' hc' hall
+        have hf := addLoop_fixed isQuery gs c'.groups hall
+        simp only [applyGroups, hc', ne_eq, not_true_eq_false, if_false, if_true, hf.2.1]
+        exact ⟨trivial, trivial, hf.2.2⟩
+      have hall : ∀ g ∈ gs, isQuery g = true ∨ g ∈ (applyGroups isQuery c true gs).contact.groups := by
+        intro g hg
+        by_cases hq : isQuery g = true
+        · exact Or.inl hq
+        · right
+          have hq' : isQuery g = false := by simpa using hq
+          have hin := addLoop_has isQuery gs c.groups g hg hq'
+          simp only [applyGroups, hact, ne_eq, not_true_eq_false, if_false, if_true]
+          split
+          · exact hin
+          · rename_i hnone
+            have hn : (groupsAddLoop isQuery c.groups gs).2.1 = [] := by simpa using hnone
+            -- nothing was added: the group was there already
+            have := addLoop_fixed_of_none isQuery gs c.groups hn
+            rw [this] at hin; exact hin
+      exact key _ (by simp only [applyGroups, hact, ne_eq, not_true_eq_false, if_false, if_true]; split <;> first | exact hact | rfl | simp [hact]) hall
+    | false =>
+      have key : ∀ c' : Contact, c'.status = .active →
+          (∀ g ∈ gs, isQuery g = true ∨ g ∉ c'.groups) →
+          (applyGroups isQuery c' false gs).contact = c' ∧ (applyGroups isQuery c' false gs).modified = false ∧
+          ∀ e ∈ (applyGroups isQuery c' false gs).events, e = .error := by
+        intro c' hc' hall
+        have hf := remLoop_fixed isQuery gs c'.groups hall
+        simp only [applyGroups, hc', ne_eq, not_true_eq_false, if_false, hf.2.1, Bool.false_eq_true]
+        exact ⟨trivial, trivial, hf.2.2⟩
+      have hall : ∀ g ∈ gs, isQuery g = true ∨ g ∉ (applyGroups isQuery c false gs).contact.groups := by
+        intro g hg
+        by_cases hq : isQuery g = true
+        · exact Or.inl hq
+        · right
+          have hq' : isQuery g = false := by simpa using hq
+          have hout := remLoop_gone isQuery gs c.groups g hg hq'
+          simp only [applyGroups, hact, ne_eq, not_true_eq_false, if_false, Bool.false_eq_true]
+          split
+          · exact hout
+          · rename_i hnone
+            have hn : (groupsRemoveLoop isQuery c.groups gs).2.1 = [] := by simpa using hnone
+            have := remLoop_fixed_of_none isQuery gs c.groups hn
+            rw [this] at hout; exact hout
+      exact key _ (by simp only [applyGroups, hact, ne_eq, not_true_eq_false, if_false, Bool.false_eq_true]; split <;> first | exact hact | rfl | simp [hact]) hall
+
 theorem groups_modified_iff_event (isQuery : Nat → Bool) (c : Contact) (add : Bool) (gs : List Nat) :
     (applyGroups isQuery c add gs).modified = true ↔
     ∃ a r, Ev.groupsChanged a r ∈ (applyGroups isQuery c add gs).events := by
